@@ -35,7 +35,8 @@ CORE5 = ["AMP-binding", "PKS_AT", "Condensation_LCL", "PKS_KS", "PKS_KS/Trans-AT
          "Trans-AT_docking", "LPG_synthase_C", "Beta_elim_lyase", "CAL_domain", "NRPS-COM_Nterm", "Epimerization"]
 # the double-transporter case needs 4-5 domains: a small alphabet, longer strings
 TRANSPORTER = ["PKS_KS/Trans-AT-KS", "ACP", "LPG_synthase_C", "Beta_elim_lyase", "PKS_KR"]
-KS_SUBTYPES = ["", "", "Trans-AT-KS", "Trans-AT-KS", "Iterative-KS", "Modular-KS", "Hybrid-KS", "Enediyne-KS"]
+KS_SUBTYPES = ["", "", "Trans-AT-KS", "Trans-AT-KS", "Iterative-KS", "Modular-KS", "Hybrid-KS", "Enediyne-KS",
+               "Trans-AT-KS+Modular-KS", "Iterative-KS+Trans-AT-KS"]
 STRANDS = [(1, 1), (-1, -1), (1, -1), (-1, 1)]
 
 MC_CFG = """SPECIFICATION Spec
@@ -80,7 +81,8 @@ def _classify(label: str) -> str:
 def _domrec(label: str, subtype: str) -> dict:
     """ abstract domain as the spec sees it; class = the code's classification of the name (input annotation),
         p = a purely syntactic feature of the name """
-    return {"l": label, "s": subtype, "c": _classify(label), "p": label.startswith("PKS")}
+    # (several competing subtype hits are no subtype: HMMResult.detailed_names stops at a level with several hits)
+    return {"l": label, "s": "" if "+" in subtype else subtype, "c": _classify(label), "p": label.startswith("PKS")}
 
 
 # ---- observation (runs in worker processes) ---------------------------------------------------
@@ -102,7 +104,9 @@ def _hits(doms, order=None):
     for idx, (label, subtype) in enumerate(doms):
         hit = HMMResult(label, idx * 10, idx * 10 + 9, 1e-5, 50.)
         if subtype:
-            hit.add_internal_hits([HMMResult(subtype, idx * 10, idx * 10 + 9, 1e-5, 50.)])
+            # "X+Y": two competing subtype hits at the first level - documented as "no subtype" (the chain of names stops
+            # where several hits are found)
+            hit.add_internal_hits([HMMResult(name, idx * 10, idx * 10 + 9, 1e-5, 50.) for name in subtype.split("+")])
         hits.append(hit)
     if order:
         hits = [hits[idx] for idx in order]
